@@ -83,7 +83,7 @@ func init() {
 				cse.TimeoutMS = 60000
 				cs = append(cs, cse)
 			}
-			for i, s := range []string{"blocked-stop", "parked-dispatch", "cancel-blocked-stop", "restart-rearm", "restart-from-last", "stop-at-once", "double-stop", "long-blocked-stop", "zero-delay-middle", "equal-frequency-neighbours", "unsorted-delays", "restarts-during-report", "restart-at-start", "restart-before-first-delay"} {
+			for i, s := range []string{"blocked-stop", "parked-dispatch", "cancel-blocked-stop", "restart-rearm", "restart-from-last", "stop-at-once", "double-stop", "long-blocked-stop", "zero-delay-middle", "equal-frequency-neighbours", "unsorted-delays", "restarts-during-report", "restart-at-start", "restart-before-first-delay", "restart-after-stop", "overrun-then-switch"} {
 				reps := 2
 				if tier == "thorough" {
 					reps = 8
@@ -106,6 +106,9 @@ func init() {
 					}
 					if s == "restart-at-start" {
 						p.Scheds = []c18Sched{{0, 5}}
+					}
+					if s == "overrun-then-switch" {
+						p.Scheds = []c18Sched{{0, 20}, {250, 50}}
 					}
 					if s == "restart-before-first-delay" {
 						// the first schedule is due after 400 ms; a Restart at once starts it at once
@@ -612,6 +615,72 @@ func c18Script(c *core.Case, o *core.Outcome) {
 				o.Violate(key, "one schedule (5 ms ticks), Restart right after Start (round %d): the function was not invoked once in the 2 s that followed - the runner is running and has stopped ticking", round)
 				return
 			}
+		}
+	case "restart-after-stop":
+		// Restart on a runner that was stopped (or whose context ended): a request nobody will look at; the function is
+		// not invoked again and nothing of the runner comes back
+		for round := 0; round < 4; round++ {
+			rc := &c18Rec{l: l}
+			rctx, rcancel := context.WithCancel(ctx)
+			runner, _ := raterun.New(rc.c18fn, c18Schedules(&p))
+			runner.Start(rctx)
+			time.Sleep(30 * time.Millisecond)
+			if round%2 == 0 {
+				done, _ := stopInGoroutine(runner, rc)
+				select {
+				case <-done:
+				case <-time.After(10 * time.Second):
+					rcancel()
+					o.Violate(key+"-hang", "Stop did not return within 10 s")
+					return
+				}
+			} else {
+				rcancel()
+				time.Sleep(30 * time.Millisecond)
+			}
+			n0 := func() int { rc.mu.Lock(); defer rc.mu.Unlock(); return len(rc.invs) }()
+			runner.Restart()
+			time.Sleep(150 * time.Millisecond)
+			n1 := func() int { rc.mu.Lock(); defer rc.mu.Unlock(); return len(rc.invs) }()
+			rcancel()
+			if n1 > n0 {
+				o.Violate(key, "the function was invoked %d more times after the runner had been %s and Restart was called on it", n1-n0, map[bool]string{true: "stopped", false: "cancelled"}[round%2 == 0])
+				return
+			}
+			if !c18Leak(o, opt, p.Desc+" (Restart after the runner ended)") {
+				return
+			}
+		}
+	case "overrun-then-switch":
+		// the function takes longer than the first schedule's period (30 ms against 20 ms): the second schedule still
+		// starts after its start delay (bounded progress: seen within 3 s)
+		rc := &c18Rec{l: l, fnUS: 30000}
+		runner, _ := raterun.New(rc.c18fn, c18Schedules(&p))
+		runner.Start(ctx)
+		f2nd := time.Duration(p.Scheds[1].FreqMS) * time.Millisecond
+		ok := waitUntil(3*time.Second, func() bool {
+			rc.mu.Lock()
+			defer rc.mu.Unlock()
+			for _, in := range rc.invs {
+				if in.freq == f2nd {
+					return true
+				}
+			}
+			return false
+		})
+		done, _ := stopInGoroutine(runner, rc)
+		select {
+		case <-done:
+		case <-time.After(10 * time.Second):
+			o.Violate(key+"-hang", "Stop did not return within 10 s")
+			return
+		}
+		if !ok {
+			rc.mu.Lock()
+			n := len(rc.invs)
+			rc.mu.Unlock()
+			o.Violate(key, "schedules %v with a function that takes 30 ms: after 3 s and %d invocations the second schedule (due after 250 ms) has not started", p.Scheds, n)
+			return
 		}
 	case "restart-before-first-delay":
 		// Restart before the first schedule's own start delay has elapsed: the first schedule starts then, the second one
